@@ -303,6 +303,36 @@ def judge_wrapper_real(order):
     return out
 
 
+def judge_large_batch(h, n):
+    """more events than one 100-event partition, in no particular order, through the wrapper with the real kernel: the
+    batch is the concatenation of its two halves (which are each a single partition), lane by lane, bit for bit"""
+    import dask
+
+    from nuspacesim.simulation.eas_optical.eas import EAS
+
+    k = np.arange(n)
+    b = np.radians(3.0 + 30.0 * ((k * 0.6180339887498949) % 1.0))
+    a = 0.2 + 14.0 * ((k * 0.7548776662466927) % 1.0)
+    a[7::23] = 25.0  # a few decays above the 20 km range cut
+    E = 10.0 ** (-1.0 + 3.0 * ((k * 0.5698402909980532) % 1.0))
+    z = np.zeros(n)
+    out = []
+    with own.null_progress(), dask.config.set(scheduler="synchronous"), np.errstate(all="ignore"):
+        eas = EAS(sim.make_config(altitude=h))
+        whole = eas(b.copy(), a.copy(), E.copy(), z.copy(), z.copy(), cloudf=None)
+        m = n // 2
+        h1 = EAS(sim.make_config(altitude=h))(b[:m].copy(), a[:m].copy(), E[:m].copy(), z[:m].copy(), z[:m].copy(), cloudf=None)
+        h2 = EAS(sim.make_config(altitude=h))(b[m:].copy(), a[m:].copy(), E[m:].copy(), z[m:].copy(), z[m:].copy(), cloudf=None)
+    for j, name in ((0, "numPEs"), (1, "costhetaChEff")):
+        w = np.asarray(whole[j], dtype=np.float64)
+        c = np.concatenate([np.asarray(h1[j], dtype=np.float64), np.asarray(h2[j], dtype=np.float64)])
+        bad = np.where(w.view(np.int64) != c.view(np.int64))[0] if w.shape == c.shape else [0]
+        if len(bad):
+            i = int(bad[0])
+            out.append(("large_batch_is_the_concatenation_of_its_halves", f"{name}[{i}] = {float(c[i]) if c.shape == w.shape else c.shape!r} (event beta={float(b[i])!r}, altDec={float(a[i])!r}, E={float(E[i])!r})", float(w[i]) if c.shape == w.shape else repr(w.shape)))
+    return out
+
+
 def run(ctx):
     from .. import pipeline
 
@@ -313,6 +343,10 @@ def run(ctx):
         ctx.tick(3 * len(order), ("wrapper_real", tuple(order)))
         for c, e, o in judge_wrapper_real(order)[:3]:
             ctx.violation(c, {"kind": "wreal", "order": order}, e, o)
+    for h, n in ((33.0, 130), (525.0, 101)):
+        ctx.tick(2 * n, ("large_batch", h, n))
+        for c, e, o in judge_large_batch(h, n):
+            ctx.violation(c, {"kind": "large_batch", "h": h, "n": n}, e, o)
     v, n = judge_wrapper_history(2.5, 0.2, 10.0)
     ctx.tick(n, ("wrapper_history",))
     for c, seq, e, o in v[:3]:
@@ -395,6 +429,8 @@ def replay(case):
 
         return pipeline.replay(case)
     k = case["kind"]
+    if k == "large_batch":
+        return judge_large_batch(case["h"], case["n"])
     if k == "wrap":
         return judge_wrapper(case["area"], case["qe"], case["thr"], [tuple(e) for e in case["events"]], tuple(case.get("forms", ("f8", "f8", "f8"))))
     if k == "whist":
